@@ -64,6 +64,21 @@ pub fn st_str<E: Elem>(m: &Matrix<E>) -> String {
     format!("st {} {}x{} [{}]", ord_ch(m.order()), m.nrows(), m.ncols(), mem.join(","))
 }
 
+/// every shape argument is `impl Into<Shape>`: the spelling (tuple, array, `Shape::new`) rotates
+/// with the extents, so that all three conversions are exercised by every generator
+macro_rules! spelled {
+    ($nr:expr, $nc:expr, |$sh:ident| $body:expr) => {
+        match (($nr % 3) + 2 * ($nc % 3)) % 3 {
+            0 => { let $sh = ($nr, $nc); $body }
+            1 => { let $sh = [$nr, $nc]; $body }
+            _ => { let $sh = matreex::Shape::new($nr, $nc); $body }
+        }
+    };
+}
+pub fn spelling(nr: usize, nc: usize) -> &'static str {
+    match ((nr % 3) + 2 * (nc % 3)) % 3 { 0 => "(nrows, ncols)", 1 => "[nrows, ncols]", _ => "Shape::new(nrows, ncols)" }
+}
+
 impl<E: Elem> World<E> {
     pub fn new(out: &mut Out) -> Self {
         out.op(&format!("elem {}", E::KIND), "ok");
@@ -201,7 +216,7 @@ impl<E: Elem> World<E> {
         let before = snapshot();
         let st_before = self.reg_str(r);
         let m = self.regs[r].as_mut().unwrap();
-        let res = catch(|| m.reshape((nr, nc)).map(|_| ()));
+        let res = catch(|| spelled!(nr, nc, |sh| m.reshape(sh).map(|_| ())));
         let after = snapshot();
         if (after.cloned, after.dropped, after.created, after.defaults) != (before.cloned, before.dropped, before.created, before.defaults) {
             out.oracle_fail(&format!("{op}: elements were cloned/dropped/created"));
@@ -242,7 +257,7 @@ impl<E: Elem> World<E> {
             return;
         }
         let m = self.regs[r].as_mut().unwrap();
-        let res = catch(|| m.resize((nr, nc)).map(|_| ()));
+        let res = catch(|| spelled!(nr, nc, |sh| m.resize(sh).map(|_| ())));
         let after = snapshot();
         let (order, rf) = self.refs[r].take().unwrap();
         let old = rf.nrows * rf.ncols;
@@ -1076,9 +1091,9 @@ impl World<Tok> {
         out.announce(&op);
         let calls = std::cell::RefCell::new(Vec::new());
         let res = match kind {
-            "with_value" => catch(|| matreex::Matrix::with_value((nr, nc), Tok::new("v"))),
-            "with_default" => catch(|| matreex::Matrix::<Tok>::with_default((nr, nc))),
-            _ => catch(|| matreex::Matrix::with_initializer((nr, nc), |i| { calls.borrow_mut().push((i.row, i.col)); Tok::new(format!("i{}.{}", i.row, i.col)) })),
+            "with_value" => catch(|| spelled!(nr, nc, |sh| matreex::Matrix::with_value(sh, Tok::new("v")))),
+            "with_default" => catch(|| spelled!(nr, nc, |sh| matreex::Matrix::<Tok>::with_default(sh))),
+            _ => catch(|| spelled!(nr, nc, |sh| matreex::Matrix::with_initializer(sh, |i| { calls.borrow_mut().push((i.row, i.col)); Tok::new(format!("i{}.{}", i.row, i.col)) }))),
         };
         let n = nr * nc;
         let want = Ref { nrows: nr, ncols: nc, rows: if n == 0 { Vec::new() } else { (0..nr).map(|r| (0..nc).map(|c| match kind {
